@@ -39,7 +39,19 @@ VARIANTS = [
 ]
 
 
+# twins: schemas that are EQUAL as Python objects (1 == True, 0 == False) and different as JSON, validated by
+# validators built the plain way (no resolver, no handlers, no store): everything a cache could key on is equal
+VARIANTS += [
+    {"twin": {"enum": [1, "x"]}, "inst": [1, True, "x", 0]},
+    {"twin": {"enum": [True, "x"]}, "inst": [1, True, "x", 0]},
+    {"twin": {"enum": [0]}, "inst": [0, False, 1]},
+    {"twin": {"enum": [False]}, "inst": [0, False, 1]},
+]
+
+
 def schema_for(d, var):
+    if "twin" in var:
+        return {"definitions": {"a": var["twin"]}, "items": {"$ref": "#/definitions/a"}}
     both = [{"$ref": "#/definitions/a"}, {"$ref": URL + "#/d"}, {"$ref": HURL + "#/d"}]
     item = {"pattern": "^a", "format": "f"}
     item["allOf" if d >= 4 else "extends"] = both
@@ -58,6 +70,9 @@ def make_validator(d, k, store_from=None):
     k, alias = split(k)
     var = VARIANTS[k]
     S = schema_for(d, var)
+    if "twin" in var:
+        v = _e1.CLS[d](S)
+        return v, v.resolver
     fc = FormatChecker(formats=[])
     fc.checks("f")(lambda inst, f=var["fmt"]: (not isinstance(inst, str)) or f(inst))
     cls = _e1.CLS[d]
@@ -81,7 +96,16 @@ def expected(d, k, short=False, first=None):
         n = 2 if short is True else short
         return [e for e in expected(d, k, False, first) if e[2][0] < n]      # the errors of the first n elements
     k, alias = split(k)
-    rdoc = VARIANTS[split(first)[0]]["R"] if (alias and first is not None) else VARIANTS[k]["R"]
+    rdoc = (VARIANTS[split(first)[0]]["R"] if (alias and first is not None) else VARIANTS[k]["R"]) \
+        if "twin" not in VARIANTS[k] else None
+    if "twin" in VARIANTS[k]:
+        key = (d, k, "twin")
+        if key not in _expected:
+            S = schema_for(d, VARIANTS[k])
+            I = refmodel.inline(refmodel.World(d, S, {}), S)
+            _expected[key] = [(e.validator, e.message, tuple(e.absolute_path))
+                              for e in _e1.CLS[d](I).iter_errors(VARIANTS[k]["inst"])]
+        return _expected[key]
     key = (d, k, json.dumps(rdoc))
     if key not in _expected:
         var = VARIANTS[k]
@@ -174,9 +198,9 @@ def steps_of(prog):
 
 
 def part_a_configs(d, tier):
-    combos = [(0, 1), (1, 2), (0, 2), (0, 1, 2), (0, (1, "alias")), (2, (0, "alias"))] if tier == "quick" else \
+    combos = [(0, 1), (1, 2), (0, 2), (0, 1, 2), (0, (1, "alias")), (2, (0, "alias")), (3, 4), (6, 5)] if tier == "quick" else \
         [(0, 1), (1, 0), (1, 2), (0, 2), (0, 0), (0, 1, 2), (2, 1, 0), (0, (1, "alias")), (2, (0, "alias")),
-         (1, (1, "alias")), (0, (2, "alias"), 1)]
+         (1, (1, "alias")), (0, (2, "alias"), 1), (3, 4), (4, 3), (5, 6), (6, 5), (3, 4, 5)]
     for ks in combos:
         plist = [programs(len(expected(d, k, A_LEN["n"], ks[0]))) for k in ks]
         for progs in itertools.product(*plist):
